@@ -37,7 +37,7 @@ MANIFEST = {
     "technique": "Lean 4 proof (executable model, Mathlib group law through the C02 refinement, decide over generated tables) + "
                  "differential correspondence model vs implementation + independent reference oracle",
 }
-RULE = ("ops bip32_ckdraw/bip32_ckdpubraw/bip32_spec/bip32_master/bip32_node/bip32_pubcopy/bip32_ckd/bip32_path/bip32_nodepath/bip32_ser/bip32_deser/hwif/hparse/subpaths/"
+RULE = ("ops c09pure <op> (same op under PYCOIN_NATIVE=none)/bip32_ckdraw/bip32_ckdpubraw/bip32_spec/bip32_master/bip32_node/bip32_pubcopy/bip32_ckd/bip32_path/bip32_nodepath/bip32_ser/bip32_deser/hwif/hparse/subpaths/"
         "bip32_hist/bip32_pathhist/bip32_subkeys/electrum_new/electrum_subkey; boundary corpus (BIP32 vectors 1-3, indices 0, 1, "
         "2^24-1, 2^24, 2^31-1, 2^31 hardened and not, parents whose exponent has leading zero bytes, depth 255/256, every network "
         "x prefix kind, wrong-length / wrong-prefix / corrupted extended keys, path spellings, ranges) + seeded random seeds, paths, "
@@ -188,9 +188,39 @@ class _StubGen:
 
 # ------------------------------------------------------------------ implementation adapter
 
+_PURE = None
+
+
+def _pure_worker():
+    """child process with PYCOIN_NATIVE=none (pure-Python curve arithmetic: the blinded table multiplication the model mirrors);
+    pycoin fixes the backend at import time, hence a separate interpreter"""
+    global _PURE
+    if _PURE is None or _PURE.poll() is not None:
+        import os
+        import subprocess
+        import sys
+        here = os.path.dirname(os.path.dirname(os.path.abspath(__file__)))
+        env = dict(os.environ, PYCOIN_NATIVE="none", PYTHONPATH=os.pathsep.join([os.environ.get("PYCOIN_REPO", "/repo"), here]))
+        code = ("import sys\nimport props.c09 as c\n"
+                "from pycoin.ecdsa.secp256k1 import secp256k1_generator as g\n"
+                "assert all('noop' in b.__name__ for b in type(g).__mro__[1:3]), type(g).__mro__\n"
+                "for line in sys.stdin:\n    sys.stdout.write(c.impl(line.rstrip('\\n')) + '\\n'); sys.stdout.flush()\n")
+        _PURE = subprocess.Popen([sys.executable, "-c", code], stdin=subprocess.PIPE, stdout=subprocess.PIPE, env=env, text=True)
+    return _PURE
+
+
 def impl(op: str) -> str:
     a = op.split(" ")
     k = a[0]
+    if k == "c09pure":
+        w = _pure_worker()
+        w.stdin.write(" ".join(a[1:]) + "\n")
+        w.stdin.flush()
+        r = w.stdout.readline()
+        if not r:
+            from lib import Infra
+            raise Infra("pure-Python worker died")
+        return r.rstrip("\n")
     try:
         if k == "bip32_master":
             return "ok " + show_node(cls_for("btc", int(a[1])).from_master_secret(unhx(a[2])))
@@ -495,6 +525,10 @@ def _check_node(tok, want, what):
 def oracle(op: str, out: str):
     a = op.split(" ")
     k = a[0]
+    if k == "c09pure":
+        # both arithmetic configurations must give the same answer
+        other = impl(" ".join(a[1:]))
+        return None if other == out else "pure-Python and OpenSSL configurations disagree: %s" % other[:120]
     if k == "bip32_master" and out.startswith("ok "):
         want = ref_master(unhx(a[2]))
         if want is None:
@@ -746,6 +780,8 @@ def oracle(op: str, out: str):
 
 def trivial(op: str) -> bool:
     a = op.split(" ")
+    if a[0] == "c09pure":
+        a = a[1:]
     return a[0] in ("bip32_node",) or (a[0] == "hparse" and len(a[3]) < 100)
 
 
@@ -820,6 +856,16 @@ def gen(ctx, emit):
                                             ",".join(map(str, idxs)), 1 if pub_first else 0))
     emit("bip32_path btc 32 000102030405060708090a0b0c0d0e0f %s 0" % s2h("0/1/2"))
 
+    # --- the pure-Python arithmetic configuration (child process, PYCOIN_NATIVE=none)
+    for p in ("0H/1/2H/2/1000000000", "0/1", "16777216/16777215H"):
+        emit("c09pure bip32_path btc 32 000102030405060708090a0b0c0d0e0f %s 0" % s2h(p))
+    emit("c09pure bip32_path btc 32 000102030405060708090a0b0c0d0e0f %s 1" % s2h("0/1"))
+    for _ in range(ctx.n(6, 150)):
+        t = rand_priv_tok()
+        emit("c09pure bip32_ckd %s %d %s %s" % (t, rng.choice(BOUNDARY_I + [rng.randrange(2 ** 31)]), rng.choice("01"), rng.choice("01n")))
+        if rng.random() < 0.5:
+            emit("c09pure bip32_ckd %s %d 0 n" % (pub_tok_of(t), rng.choice(BOUNDARY_I)))
+    emit("c09pure electrum_subkey prv:%d %s 1" % (rng.randrange(1, N), s2h("5/1")))
     # --- index boundaries, hardened and not, private and public parents, every as_private
     base = rand_priv_tok()
     base_pub = pub_tok_of(base)
